@@ -33,6 +33,8 @@ pub fn profile_general() -> Profile {
         options: true,
         body_recv: false,
         max_depth: 2,
+        hostile_names: false,
+        generic_recv: false,
     }
 }
 
@@ -66,7 +68,7 @@ pub fn build_corpus(tag: &str, seed: u64, profile: Profile, programs: usize, sha
     }
     sh.retain(|s| !s.ids.is_empty());
     for s in sh.iter_mut() {
-        s.source = emit::emit_shard(&recvs, &s.ids);
+        s.source = if darling_only { emit::emit_shard_darling_only(&recvs, &s.ids) } else { emit::emit_shard(&recvs, &s.ids) };
     }
     let dir = PathBuf::from(format!("/verif/work/corpus/{tag}"));
     let target = PathBuf::from(format!("/verif/work/target-corpus-{tag}"));
@@ -294,6 +296,8 @@ pub fn profile_element() -> Profile {
         options: true,
         body_recv: false,
         max_depth: 1,
+        hostile_names: false,
+        generic_recv: false,
     }
 }
 
@@ -310,6 +314,8 @@ pub fn profile_enum() -> Profile {
         options: true,
         body_recv: false,
         max_depth: 1,
+        hostile_names: false,
+        generic_recv: false,
     }
 }
 
@@ -326,7 +332,97 @@ pub fn profile_magic() -> Profile {
         options: true,
         body_recv: true,
         max_depth: 1,
+        hostile_names: false,
+        generic_recv: false,
     }
+}
+
+pub fn profile_compile_hostile() -> Profile {
+    Profile {
+        name: "compile-hostile",
+        traits: vec![Trait::Meta, Trait::Meta, Trait::DeriveInput, Trait::Field, Trait::Variant, Trait::TypeParam, Trait::Attributes],
+        p_enum: 3,
+        p_nested: 3,
+        magic: true,
+        supports: true,
+        forward_attrs: true,
+        flatten: true,
+        options: true,
+        body_recv: true,
+        max_depth: 2,
+        hostile_names: true,
+        generic_recv: true,
+    }
+}
+
+/// C20: every accepted declaration compiles in a crate whose only dependency is darling
+fn run_c20(args: &Args) -> i32 {
+    let started = Instant::now();
+    let programs = args.budget(320, 4000) as usize;
+    let built = build_corpus("compile-hostile", args.seed, profile_compile_hostile(), programs, 16, true, true);
+    let mut c = Collector::new();
+    c.max_samples = 6;
+    c.evals(built.tops.len() as u64);
+    let mut bad: std::collections::BTreeSet<usize> = Default::default();
+    for e in &built.compile_errors {
+        let sh = built.corpus.shards.iter().find(|s| s.name == e.shard);
+        let id = sh.and_then(|sh| drive::recv_at_line(&sh.source, e.line));
+        if let Some(i) = id {
+            bad.insert(i);
+        }
+        let key: String = {
+            let mut out = String::new();
+            let mut tick = false;
+            for ch in e.message.chars() {
+                if ch == '`' {
+                    tick = !tick;
+                    continue;
+                }
+                if !tick {
+                    out.push(ch);
+                }
+            }
+            out.split_whitespace().take(7).collect::<Vec<_>>().join("_")
+        };
+        let src = id.map(|i| recv_source(&built.recvs, i)).unwrap_or_default();
+        c.violation(
+            format!("C20:compile-error:{}:{}", e.code, key),
+            format!("receiver {:?} does not compile in a darling-only crate: [{}] {}", id.map(|i| built.recvs[i].name()), e.code, e.message),
+            json!({"receiver": src, "error_code": e.code, "message": e.message, "shard": e.shard, "line": e.line}),
+        );
+    }
+    for id in &built.tops {
+        let r = &built.recvs[*id];
+        let feats = format!("{:?}|{}|{}|{:?}|{:?}|{}", r.tr, r.is_enum(), r.generics, r.cdefault, r.post, r.magic.len());
+        c.nontrivial(&(feats, r.fields().len()));
+        c.count(&format!("programs.{:?}{}", r.tr, if r.is_enum() { "-enum" } else { "" }));
+        if !r.generics.is_empty() {
+            c.count("programs.generic");
+        }
+        if c.samples.len() < 3 && !bad.contains(id) {
+            let src = recv_source(&built.recvs, *id);
+            c.sample(|| json!({"compiled_receiver": src.lines().take(25).collect::<Vec<_>>().join("\n")}));
+        }
+    }
+    c.count_n("corpus.receivers_total", built.recvs.len() as u64);
+    c.count_n("corpus.shards_built", built.corpus.shards.iter().filter(|s| s.built).count() as u64);
+    c.count_n("programs.failing", bad.len() as u64);
+    let mut extra = serde_json::Map::new();
+    extra.insert("programs".into(), json!(built.tops.len()));
+    extra.insert("spec_features".into(), feature_table(&built.recvs));
+    conclude(
+        args,
+        started,
+        c,
+        Verdict {
+            level: "exploration",
+            rule: "accepted receiver declarations over C01 / C09 / C16's option space (all six traits, enums, nested receivers, flatten, magic fields, body receivers, supports, forward_attrs, defaults, with as path and closure, map / and_then, from_word / from_none as path and closure, generic receivers with lifetime / type / const parameters) with hostile names (darling's option words, names of generated locals without underscores, raw identifiers, variants named None / Some / Ok / Err / Default / Vec / ...), emitted into crates whose ONLY dependency is darling (syn is reached through ::darling::export::syn) and compiled with rustc; every rustc error is a violation, mapped to the receiver it falls in. Distinct = (trait, enum?, generics, container default, transform, #magic fields, #fields).".into(),
+            assumptions: vec!["the same emitter produces the corpora of C01..C18, which compile with zero errors when syn is available; warnings are ignored".into()],
+            min_nontrivial: 50,
+            exhaustive: None,
+            extra,
+        },
+    )
 }
 
 /// C16 / C18 / C07: structured input elements for receivers with magic fields, shape sets and bodies
@@ -1068,6 +1164,7 @@ fn main() {
             ),
             _ => run_general(&args, "C17"),
         },
+        "C20" => run_c20(&args),
         "C16" => run_corpus(&args, "C16", magic_plan()),
         "C18" => {
             let mut p = magic_plan();
